@@ -196,6 +196,27 @@ theorem c13_readArea_range (fm : FMap) (img : Bytes) (i : Int)
   unfold readArea
   rw [if_pos (by simp; omega)]
 
+/-- WriteArea refuses every index outside `[0, NAreas)`.  The index is an unbounded integer (Go `int`): there is no
+    reduction modulo the width of `NAreas` (2^16) or of any other fixed-width type, so `65536 + k`, `2·65536 + k`,
+    `2^31 - 1`, `2^32 + k` and every negative index are refused like `NAreas` itself; nothing is returned, so nothing
+    is written.  (`c13_readArea_range` above is the same statement for ReadArea.) -/
+theorem c13_writeArea_range (fm : FMap) (img : Bytes) (i : Int) (data : Bytes)
+    (hi : i < 0 ∨ (fm.hdr.nAreas : Int) ≤ i) : writeArea fm img i data = .error .range := by
+  unfold writeArea
+  rw [if_pos (by simp; omega)]
+
+/-- Conversely an index that is accepted lies in `[0, NAreas)` — for ReadArea and WriteArea, over all integers. -/
+theorem c13_area_ok_index (fm : FMap) (img : Bytes) (i : Int) :
+    (∀ r, readArea fm img i = .ok r → 0 ≤ i ∧ i < (fm.hdr.nAreas : Int)) ∧
+    (∀ data img', writeArea fm img i data = .ok img' → 0 ≤ i ∧ i < (fm.hdr.nAreas : Int)) := by
+  refine ⟨fun r h => ?_, fun data img' h => ?_⟩
+  · by_cases hi : i < 0 ∨ (fm.hdr.nAreas : Int) ≤ i
+    · rw [c13_readArea_range fm img i hi] at h; cases h
+    · omega
+  · by_cases hi : i < 0 ∨ (fm.hdr.nAreas : Int) ≤ i
+    · rw [c13_writeArea_range fm img i data hi] at h; cases h
+    · omega
+
 /-- Writing to an area changes only bytes inside `[offset, offset+|data|)` ⊆ the area,
     and keeps the image length. -/
 theorem c13_writeArea_confined (fm : FMap) (img img' : Bytes) (i : Int) (data : Bytes)
@@ -302,6 +323,17 @@ def sampleMap : FMap :=
                { offset := 0x10, size := 0x20, name := sampleName [0x52, 0x57], flags := 0 } ] }
 
 def sampleImg : Bytes := List.replicate 0xC0 0xAA
+
+/-- the range theorems at indices whose low 16 / 32 bits are a valid index of the 2-area sample map -/
+example : ∀ i ∈ ([65536, 65537, 2 * 65536 + 1, 2 ^ 31 - 1, 2 ^ 32, 2 ^ 32 + 1, 2 ^ 63 - 1, 2, 3, 65535,
+      -1, -65535, -65536, -(2 ^ 32) + 1, -(2 ^ 63)] : List Int),
+    readArea sampleMap sampleImg i = .error .range ∧ writeArea sampleMap sampleImg i [1, 2] = .error .range := by
+  intro i hi
+  have : i < 0 ∨ ((sampleMap.hdr.nAreas : Nat) : Int) ≤ i := by
+    simp only [List.mem_cons, List.not_mem_nil, or_false] at hi
+    simp only [sampleMap]
+    omega
+  exact ⟨c13_readArea_range _ _ _ this, c13_writeArea_range _ _ _ _ this⟩
 
 example : sampleMap.WT ∧ sampleMap.areas.length = sampleMap.hdr.nAreas ∧
     headerValid sampleMap.hdr = true := by
